@@ -266,6 +266,19 @@ def nontrivial(r):
 def matches_finding(f, r):
     t = r["line"].split()
     pred = f.get("pred")
+    if pred == "sha512_refuses_at_multiples_of_2_96":
+        # exactly: SHA-384/512, counter preset p, n bytes fed; walking the counter in steps of 8 bits, the FIRST value at which the
+        # compiled test (low 96 bits zero and top word < 8) fires is k*2^96 with 1 <= k <= 7 (not the true wrap to 0), and the
+        # library reported an error
+        if t[0] != "md_stream_len" or t[1] not in ("sh384", "sh512") or r["got"] != "err":
+            return False
+        p = int(t[2], 16)
+        n = sum(0 if x == "." else len(x) // 2 for x in t[3:])
+        for j in range(1, n + 1):
+            v = (p + 8 * j) % (1 << 128)
+            if v % (1 << 96) == 0 and v >> 96 < 8:
+                return v != 0
+        return False
     if pred == "aes_empty_plaintext":
         if t[0] == "aes_enc" and t[4] == ".":
             return True
